@@ -149,6 +149,15 @@ TE46 == Fill(60, 16) \o <<0>> \o Fill(61, 4) \o <<0>> \o Fill(62, 4) \o <<0>> \o
         \o <<0, 6, 2>> \o <<0, 7, 3>> \o <<0, 9>> \o <<0, 10>> \o <<0, 11>>
 \* same with an exception for faces {0} on the first field and the optional materials field
 TE80 == Fill(60, 16) \o <<1>> \o Fill(64, 16) \o SubSeq(TE46, 17, 46) \o <<0>> \o Fill(65, 16)
+\* face bitfields (7 faces per byte, most significant group first, 80 = more bytes follow) naming high faces:
+\* {2, 45} and {45} alone take 7 bytes (the last group of {45} is 00), {0, 63} takes 10 bytes
+F2x45 == <<136, 128, 128, 128, 128, 128, 4>>
+F45 == <<136, 128, 128, 128, 128, 128, 0>>
+F0x63 == <<129, 128, 128, 128, 128, 128, 128, 128, 128, 1>>
+F13x14x20x21 == <<129, 193, 192, 0>>  \* faces 13, 14, 20, 21: 4 bytes, last group 00
+\* texture entry with exceptions on high faces in three of its fields (textures, colour, glow)
+TEHi == SubSeq(TE46, 1, 16) \o F2x45 \o Fill(64, 16) \o SubSeq(TE46, 17, 21) \o F45 \o Fill(66, 4)
+        \o SubSeq(TE46, 22, 26) \o F13x14x20x21 \o Fill(67, 4) \o SubSeq(TE46, 27, 46) \o F0x63 \o <<12>>
 NV1 == <<97, 32, 83, 84, 82, 73, 78, 71, 32, 82, 87, 32, 83, 86, 32, 98>>                  \* "a STRING RW SV b"
 NV2 == <<110, 32, 83, 51, 50, 32, 82, 32, 83, 32, 53, 10>> \o <<109, 32, 85, 51, 50, 32, 82, 87, 32, 68, 83, 32, 54>>  \* "n S32 R S 5\nm U32 RW DS 6"
 \* variant 4: terminated strings at / beyond a 256-byte block boundary (printable ASCII, no NUL, no newline)
@@ -164,7 +173,7 @@ Variant(nm, i, v, w) ==
                                 [] v = 2 -> <<1, 32, 0, 16, 0, 0, 0>> \o Fill(52, 16)
                                 [] OTHER -> <<2, 112, 0, 4, 0, 0, 0, 1, 0, 0, 0, 48, 0, 17, 0, 0, 0>> \o Fill(53, 16) \o <<5>>)
     [] nm = "NameValue" -> (CASE v = 1 -> NV1 [] v = 2 -> NV2 [] v = 4 -> NV1 \o Long(300) [] OTHER -> <<>>)
-    [] nm = "TextureEntry" -> (CASE v = 1 -> TE46 [] v = 2 -> <<>> [] OTHER -> TE80)
+    [] nm = "TextureEntry" -> (CASE v = 1 -> TE46 [] v = 2 -> <<>> [] v = 3 -> TE80 [] OTHER -> TEHi)
     [] nm = "TextureAnim" -> <<3, 255, 1, 1>> \o Fill(54, 12)
     [] nm = "PSBlockNew" -> (CASE v = 1 -> LE32(68) \o PSys68 \o LE32(18) \o PData18
                                [] v = 2 -> <<>>
